@@ -37,11 +37,45 @@ namespace cs
     using SegAl = fm::binary_segregator<fm::threshold_segregatable<fm::aligned_allocator<LeafA>>,
                                         fm::tracked_allocator<Tracker, LeafA>>;
     static CompReg r_segal("seg2_alignedA_trackedA", [](Env& e) -> Comp* {
-        return named(new RawComp<SegAl, false>(fm::threshold(e.th1, fm::aligned_allocator<LeafA>(e.min_align,
-                                                                                           LeafA(&e.leaf[0]))),
-                                        fm::tracked_allocator<Tracker, LeafA>(Tracker{&e.track},
-                                                                              LeafA(&e.leaf[1]))),
-                     "seg2_alignedA_trackedA");
+        auto c = named(new RawComp<SegAl, false>(fm::threshold(e.th1, fm::aligned_allocator<LeafA>(
+                                                                          e.min_align, LeafA(&e.leaf[0]))),
+                                                 fm::tracked_allocator<Tracker, LeafA>(Tracker{&e.track},
+                                                                                       LeafA(&e.leaf[1]))),
+                       "seg2_alignedA_trackedA");
+        c->has_tracker  = true; // only the fallback side (leaf 1) is tracked
+        c->tracked_leaf = 1;
+        return c;
+    });
+
+    // a Segregatable whose array decision differs from its node decision: takes nodes up to a size, never arrays
+    template <class L>
+    struct NodeOnlySegregatable
+    {
+        using allocator_type = L;
+        NodeOnlySegregatable(std::size_t max, L l) : alloc(std::move(l)), max_size(max) {}
+        bool use_allocate_node(std::size_t size, std::size_t) noexcept
+        {
+            return size <= max_size;
+        }
+        bool use_allocate_array(std::size_t, std::size_t, std::size_t) noexcept
+        {
+            return false;
+        }
+        L& get_allocator() noexcept
+        {
+            return alloc;
+        }
+        const L& get_allocator() const noexcept
+        {
+            return alloc;
+        }
+        L           alloc;
+        std::size_t max_size;
+    };
+    using SegNO = fm::binary_segregator<NodeOnlySegregatable<LeafA>, LeafA>;
+    static CompReg r_segno("seg2_nodeonlyA_A", [](Env& e) -> Comp* {
+        return named(new RawComp<SegNO>(NodeOnlySegregatable<LeafA>(e.th1, LeafA(&e.leaf[0])), LeafA(&e.leaf[1])),
+                     "seg2_nodeonlyA_A");
     });
 
     //=== fallback allocators ===//
@@ -83,6 +117,8 @@ namespace cs
                                                                                 LeafAC(&e.leaf[0])),
                                          LeafA(&e.leaf[1])),
                        "fallback_trackedAC_A");
+        c->has_tracker  = true; // only what the default (leaf 0) serves passes the tracker
+        c->tracked_leaf = 0;
         return c;
     });
 
@@ -138,6 +174,10 @@ namespace cs
         explicit ResAllocComp(L l)
         : HeldRes<L>(std::move(l)), RawComp<fm::memory_resource_allocator>(&this->res)
         {
+        }
+        bool move_assign_from(Comp&) override
+        {
+            return false; // the allocator points at the resource held next to it
         }
     };
     static CompReg r_pmr3("resalloc_pmr_A", [](Env& e) -> Comp* {
